@@ -5,6 +5,13 @@
 * ``observe(A, X)``      outcome / cause / shape / dtype / finiteness / input-unchanged of one call
 * ``run_scenario(scn)``  executes one exported history on ONE instance and compares every call with
                          the expectation computed by TLC (contract, memo); returns failures + outputs
+* ``Presenter``          the ways a history hands a matrix to the instance: a new tensor, THE SAME
+                         tensor object rewritten in place, a short-lived temporary, a new tensor
+                         object over the same external memory
+* ``isolated_map``       runs every item in a NEW process forked from a process in which no
+                         aggregator has ever run; ``compute_references`` obtains the history-free
+                         results that way (one process per reference), so that state shared by the
+                         instances of a process cannot reach the reference
 * ``homogeneity(...)``   A(2^e J0) * 2^-e against A(J0) with the derived allowance
 * ``random_episode``     seeded random history on a real instance, logged for TraceAggContract
 """
@@ -12,18 +19,26 @@
 from __future__ import annotations
 
 import math
+import multiprocessing as mp
+import os
+import pickle
 import random
+import traceback
 
 import numpy as np
 import torch
 
-DT = {"f32": torch.float32, "f64": torch.float64}
-DTN = {torch.float32: "f32", torch.float64: "f64"}
-EPS = {"f32": float(torch.finfo(torch.float32).eps), "f64": float(torch.finfo(torch.float64).eps)}
+DT = {"f32": torch.float32, "f64": torch.float64, "bf16": torch.bfloat16, "f16": torch.float16}
+DTN = {v: k for k, v in DT.items()}
+EPS = {k: float(torch.finfo(v).eps) for k, v in DT.items()}
+NPDT = {"f32": np.float32, "f64": np.float64}
 SEEDVAL = {"s0": 1000, "s1": 2000, "det": 1000}
 
 _CAT: dict = {}          # (m, n, var) -> info record exported by TLC ("CAT" line)
 _SEED = 0                # VERIF_SEED, mixed into every torch.manual_seed
+
+
+_CAT_LIST: list = []     # the catalogue as exported (handed to the isolated processes)
 
 
 def configure(cat_list: list[dict] | None, seed: int) -> None:
@@ -31,10 +46,13 @@ def configure(cat_list: list[dict] | None, seed: int) -> None:
     _SEED = seed
     if cat_list is not None:
         _CAT.clear()
+        _CAT_LIST[:] = cat_list
         for rec in cat_list:
             _CAT[(rec["dims"][0], rec["dims"][1], rec["var"])] = rec["info"]
     _FRESH.clear()
     _FRESH_OUTCOME.clear()
+    _REF.clear()
+    import torchjd.aggregation  # noqa: F401  (imported once, before any process is forked)
 
 
 def seed_value(s: str) -> int:
@@ -46,43 +64,62 @@ PARAM_AGGS = ("Constant", "UPGrad", "DualProj", "AlignedMTL", "ConFIG", "GradDro
 MAX_PARAM_LEN = 5
 
 
-def param_entry(agg: str, i: int) -> tuple[int, int]:
-    """Entry i (1-based) of the constant parameter vector: ParamEntry of AggContract.tla (the table
-    exported by TLC is compared with this function by ``check_param_table``)."""
+# scalar constructor parameters of the kinds with alt = 1 (AltScalars of AggContract.tla)
+ALT_SCALARS = {"reg_eps": (1, 4), "norm_eps": (1, 100), "cagrad_c": (1, 4), "mgda_epsilon": (1, 10),
+               "mgda_max_iters": 3}
+
+
+def param_entry(agg: str, i: int, alt: int = 0) -> tuple[int, int]:
+    """Entry i (1-based) of the constant parameter vector: ParamEntry of AggContract.tla (the tables
+    exported by TLC are compared with this function by ``check_param_table``)."""
+    if alt == 0:
+        if agg == "Constant":
+            return ((1 if i % 2 == 1 else -1) * (i + 1), 7)
+        if agg == "GradDrop":
+            return (i, 7)
+        return (3 * i - 2, 11)
     if agg == "Constant":
-        return ((1 if i % 2 == 1 else -1) * (i + 1), 7)
+        return ((-1 if i % 2 == 1 else 1) * (i + 2), 13)
     if agg == "GradDrop":
-        return (i, 7)
-    return (3 * i - 2, 11)
+        return (6 - i, 13)
+    return (12 - 2 * i, 13)
 
 
-def param_tensor(agg: str, a: int, dt: torch.dtype) -> torch.Tensor:
+def param_tensor(agg: str, a: int, dt: torch.dtype, alt: int = 0) -> torch.Tensor:
     """The exact rationals rounded (once) to float64, then to the parameter's dtype."""
-    return torch.tensor([n / d for n, d in (param_entry(agg, i) for i in range(1, a + 1))],
+    return torch.tensor([n / d for n, d in (param_entry(agg, i, alt) for i in range(1, a + 1))],
                         dtype=torch.float64).to(dt)
 
 
-def check_param_table(par: dict | None, scenarios: list[dict]) -> list[str]:
-    """Model and binding must agree on the parameter vectors, and no entry of a float64 parameter may
-    survive a round trip through float32 (else a mixed-dtype history could not tell a parameter
-    from a representation of it derived for the other dtype)."""
+def check_param_table(par: dict | None, paralt: dict | None, alt_scalars: dict | None,
+                      scenarios: list[dict]) -> list[str]:
+    """Model and binding must agree on the parameter vectors and the alternate scalars, and no entry of a
+    float64 parameter may survive a round trip through float32 (else a mixed-dtype history could not
+    tell a parameter from a representation of it derived for the other dtype)."""
     bad = []
-    if not par or sorted(par) != sorted(PARAM_AGGS):
-        return [f"parameter table of the model missing / other classes: {sorted(par or {})}"]
-    for agg in PARAM_AGGS:
-        want = [list(param_entry(agg, i)) for i in range(1, MAX_PARAM_LEN + 1)]
-        if [list(q) for q in par[agg]] != want:
-            bad.append(f"{agg}: model {par[agg]} != binding {want}")
-        p64 = param_tensor(agg, MAX_PARAM_LEN, torch.float64)
-        if bool((p64.float().double() == p64).any()):
-            bad.append(f"{agg}: a parameter entry is representable in float32: {p64.tolist()}")
+    for alt, table in ((0, par), (1, paralt)):
+        if not table or sorted(table) != sorted(PARAM_AGGS):
+            return [f"parameter table (alt={alt}) of the model missing / other classes: {sorted(table or {})}"]
+        for agg in PARAM_AGGS:
+            want = [list(param_entry(agg, i, alt)) for i in range(1, MAX_PARAM_LEN + 1)]
+            if [list(q) for q in table[agg]] != want:
+                bad.append(f"{agg} (alt={alt}): model {table[agg]} != binding {want}")
+            p64 = param_tensor(agg, MAX_PARAM_LEN, torch.float64, alt)
+            if bool((p64.float().double() == p64).any()):
+                bad.append(f"{agg}: a parameter entry is representable in float32: {p64.tolist()}")
+    want = {k: (list(v) if isinstance(v, tuple) else v) for k, v in ALT_SCALARS.items()}
+    if {k: (list(v) if isinstance(v, (list, tuple)) else v) for k, v in (alt_scalars or {}).items()} != want:
+        bad.append(f"alternate scalar parameters: model {alt_scalars} != binding {want}")
+    seen = set()
     for scn in scenarios:
-        k = scn["kind"]
-        want = [list(param_entry(k["agg"], i)) for i in range(1, k["a"] + 1)] \
-            if k["agg"] in PARAM_AGGS and k["pdt"] != "any" else []
-        if [list(q) for q in scn["param"]] != want:
-            bad.append(f"{k['name']}: exported parameter {scn['param']} != binding {want}")
-            break
+        for k, got in [(scn["kind"], scn["param"])] + [(st["k"], st["param"]) for st in scn["steps"] if st["op"] == "other"]:
+            if k["name"] in seen:
+                continue
+            seen.add(k["name"])
+            want = [list(param_entry(k["agg"], i, k["alt"])) for i in range(1, k["a"] + 1)] \
+                if k["agg"] in PARAM_AGGS and k["pdt"] != "any" else []
+            if [list(q) for q in got] != want:
+                bad.append(f"{k['name']}: exported parameter {got} != binding {want}")
     return bad
 
 
@@ -90,26 +127,30 @@ def make_agg(kind: dict):
     from torchjd.aggregation import (MGDA, AlignedMTL, CAGrad, ConFIG, Constant, DualProj, GradDrop, IMTLG,
                                      Krum, Mean, PCGrad, Random, Sum, TrimmedMean, UPGrad)
     agg, a, b = kind["agg"], kind["a"], kind["b"]
+    alt = kind.get("alt", 0)
     dt = DT.get(kind["pdt"], torch.float64)
-    pref = param_tensor(agg, a, dt) if a > 0 and agg in PARAM_AGGS else None
+    pref = param_tensor(agg, a, dt, alt) if a > 0 and agg in PARAM_AGGS else None
+    q = {k: (v[0] / v[1] if isinstance(v, tuple) else v) for k, v in ALT_SCALARS.items()}
     if agg == "Mean":
         return Mean()
     if agg == "Sum":
         return Sum()
     if agg == "MGDA":
-        return MGDA()
+        return MGDA(epsilon=q["mgda_epsilon"], max_iters=q["mgda_max_iters"]) if alt else MGDA()
     if agg == "PCGrad":
         return PCGrad()
     if agg == "CAGrad":
-        return CAGrad(c=0.5)
+        return CAGrad(c=q["cagrad_c"], norm_eps=q["norm_eps"]) if alt else CAGrad(c=0.5)
     if agg == "IMTLG":
         return IMTLG()
     if agg == "Random":
         return Random()
     if agg == "UPGrad":
-        return UPGrad(pref_vector=pref)
+        return UPGrad(pref_vector=pref, norm_eps=q["norm_eps"], reg_eps=q["reg_eps"]) if alt \
+            else UPGrad(pref_vector=pref)
     if agg == "DualProj":
-        return DualProj(pref_vector=pref)
+        return DualProj(pref_vector=pref, norm_eps=q["norm_eps"], reg_eps=q["reg_eps"]) if alt \
+            else DualProj(pref_vector=pref)
     if agg == "AlignedMTL":
         return AlignedMTL(pref_vector=pref)
     if agg == "ConFIG":
@@ -126,6 +167,7 @@ def make_agg(kind: dict):
 
 
 def base_matrix(c: dict) -> list[list[int]]:
+    """The integer matrix of a 2-d class WITHOUT its tiling (``c['w']`` copies side by side)."""
     if "J" in c:                                   # random (non catalogued) class of the C->S driver
         return c["J"]
     return _CAT[(c["dims"][0], c["dims"][1], c["var"])]["J"]
@@ -140,6 +182,8 @@ def make_tensor(c: dict) -> torch.Tensor:
         x = torch.tensor([1.0, -2.0, 2.0, -1.0, 3.0, 0.5][:dims[0]], dtype=torch.float64)
     elif len(dims) == 2:
         x = torch.tensor(base_matrix(c), dtype=torch.float64).reshape(dims[0], dims[1])
+        if c.get("w", 1) != 1:
+            x = x.repeat(1, c["w"])
     else:
         n = int(np.prod(dims))
         x = (torch.arange(n, dtype=torch.float64) - 3.0).reshape(*dims)
@@ -155,7 +199,7 @@ def make_tensor(c: dict) -> torch.Tensor:
 
 # ---------------------------------------------------------------------------------- observation
 def _bits(x: torch.Tensor) -> torch.Tensor:
-    return x.detach().contiguous().view(torch.int32 if x.dtype == torch.float32 else torch.int64)
+    return x.detach().contiguous().view({4: torch.int32, 8: torch.int64, 2: torch.int16}[x.element_size()])
 
 
 def _cause(msg: str) -> str:
@@ -168,12 +212,15 @@ def _cause(msg: str) -> str:
     return "unknown"
 
 
-def observe(A, X: torch.Tensor) -> tuple[dict, torch.Tensor | None]:
-    snap = _bits(X).clone()
+def observe(A, X: torch.Tensor, same_as: torch.Tensor | None = None) -> tuple[dict, torch.Tensor | None]:
+    """``same_as``: a tensor kept by the caller that holds the same bits as X (then no copy of X is
+    made here - an allocation of X's size would disturb the address pattern of temporaries)."""
+    snap = _bits(same_as) if same_as is not None else _bits(X).clone()
     shape0, dtype0, ver0 = tuple(X.shape), X.dtype, X._version
     out = None
     obs = {"outcome": "vector", "cause": "-", "n": -1, "dtype": "-", "finite": False, "mutated": False,
-           "eqfresh": "na"}
+           "eqfresh": "na", "addr": "na",
+           "zero_row": bool(X.dim() == 2 and X.shape[0] > 0 and bool((X == 0).all(dim=1).any()))}
     try:
         out = A(X)
     except ValueError as ex:
@@ -196,22 +243,102 @@ def observe(A, X: torch.Tensor) -> tuple[dict, torch.Tensor | None]:
     return obs, (out.detach().clone() if out is not None else None)
 
 
+# ---------------------------------------------------------------------------------- process isolation
+def _in_child(fn, item):
+    """fn(item) in a new process forked from this one; the result comes back pickled through a pipe."""
+    r, w = os.pipe()
+    pid = os.fork()
+    if pid == 0:
+        try:
+            os.close(r)
+            torch.set_num_threads(1)
+            try:
+                payload = pickle.dumps(("ok", fn(item)))
+            except BaseException as ex:                                       # noqa: BLE001
+                payload = pickle.dumps(("err", f"{type(ex).__name__}: {ex}\n{traceback.format_exc()}"))
+            with os.fdopen(w, "wb") as f:
+                f.write(payload)
+        finally:
+            os._exit(0)
+    os.close(w)
+    with os.fdopen(r, "rb") as f:
+        data = f.read()
+    os.waitpid(pid, 0)
+    if not data:
+        raise RuntimeError(f"isolated process for {fn.__name__} died without an answer")
+    tag, val = pickle.loads(data)
+    if tag == "err":
+        raise RuntimeError(f"isolated process for {fn.__name__} failed: {val}")
+    return val
+
+
+def _with_env(args):
+    fn, item, env = args
+    global _SEED
+    _SEED = env["seed"]
+    if env["cat"] and not _CAT:
+        configure(env["cat"], env["seed"])
+    return fn(item)
+
+
+def _spawn_one(args):
+    return _in_child(_with_env, args)
+
+
+def _spawner_init():
+    torch.set_num_threads(1)
+
+
+_POOL = None
+
+
+def start_pool(procs: int | None = None) -> None:
+    """Forks the spawner processes NOW - call it before the check's main process grows (model checker
+    output, scenarios) and before anything could call an aggregator.  A spawner does nothing but fork
+    once more per item handed to it, so every item of ``isolated_map`` starts from the state of the
+    process-wide configuration right after ``import torchjd``."""
+    global _POOL
+    if _POOL is None:
+        import torchjd.aggregation  # noqa: F401
+        procs = procs or min(16, os.cpu_count() or 4)
+        _POOL = mp.get_context("fork").Pool(procs, initializer=_spawner_init)
+
+
+def stop_pool() -> None:
+    global _POOL
+    if _POOL is not None:
+        _POOL.close()
+        _POOL.join()
+        _POOL = None
+
+
+def isolated_map(fn, items: list) -> list:
+    """[fn(x) for x in items], every call in a new process of its own in which no aggregator has run:
+    forked by the spawners of ``start_pool`` - or, without a pool (replays), by the calling process,
+    which then must not have called an aggregator itself (the check's main process never does before
+    its last isolated_map).  Catalogue and seed travel with the items."""
+    env = {"cat": list(_CAT_LIST), "seed": _SEED}
+    if _POOL is None or len(items) < 4:
+        return [_in_child(_with_env, (fn, x, env)) for x in items]
+    return _POOL.map(_spawn_one, [(fn, x, env) for x in items], chunksize=1)
+
+
 # ---------------------------------------------------------------------------------- memo oracle
-_FRESH: dict = {}
+_FRESH: dict = {}           # computed in THIS process (single calls, stream positions > 0: drift only)
 _FRESH_OUTCOME: dict = {}
+_REF: dict = {}             # computed in pristine processes: key -> (outs, outcomes)
 
 
 def _ckey(kind: dict, c: dict) -> tuple:
-    return (kind["name"], kind["agg"], kind["a"], kind["b"], kind["pdt"], tuple(c["dims"]), c["var"],
-            c["content"], c["pos"], c["dtype"], c["e"], str(c.get("J")))
+    return (kind["name"], kind["agg"], kind["a"], kind["b"], kind["pdt"], kind.get("alt", 0), tuple(c["dims"]),
+            c["var"], c["content"], c["pos"], c["dtype"], c["e"], c.get("w", 1), str(c.get("J")))
 
 
-def fresh_results(kind: dict, c: dict, seed: str, stream: list | None = None, repeats: int = 3):
-    """Results of ``repeats`` history-free calls: a new instance each time, the global RNG seeded
-    with ``seed`` and advanced by the draw requests of ``stream`` (abstract stream position)."""
-    key = (_ckey(kind, c), seed, str(stream))
-    if key in _FRESH:
-        return _FRESH[key]
+def ref_key(kind: dict, c: dict, seed: str, stream: list | None = None) -> tuple:
+    return (_ckey(kind, c), seed, str(stream))
+
+
+def _compute_fresh(kind: dict, c: dict, seed: str, stream: list | None, repeats: int = 3):
     outs, outcomes = [], []
     for _ in range(repeats):
         torch.manual_seed(seed_value(seed))
@@ -227,14 +354,54 @@ def fresh_results(kind: dict, c: dict, seed: str, stream: list | None = None, re
         obs, out = observe(A, make_tensor(c))
         outs.append(out)
         outcomes.append(obs["outcome"])
+    return outs, outcomes
+
+
+def _ref_task(item):
+    kind, c, seed, stream = item
+    return _compute_fresh(kind, c, seed, stream)
+
+
+def compute_references(wanted: list[tuple]) -> int:
+    """wanted: (kind, class, seed) triples.  Every reference - three history-free repeats: a new
+    instance on a newly built tensor right after the seed - is computed in a process of its own in
+    which nothing else has run before (the first repeat is the first aggregator call of that process),
+    and stored in ``_REF`` (inherited by the processes forked afterwards)."""
+    todo, seen = [], set()
+    for kind, c, seed in wanted:
+        k = ref_key(kind, c, seed)
+        if k not in seen and k not in _REF:
+            seen.add(k)
+            todo.append((k, (kind, c, seed, None)))
+    res = isolated_map(_ref_task, [it for _, it in todo])
+    for (k, _), r in zip(todo, res):
+        _REF[k] = r
+    return len(todo)
+
+
+def fresh_results(kind: dict, c: dict, seed: str, stream: list | None = None, repeats: int = 3, strict: bool = False):
+    """Results of ``repeats`` history-free calls: a new instance each time, the global RNG seeded
+    with ``seed`` and advanced by the draw requests of ``stream`` (abstract stream position).  Taken
+    from the table of references computed in pristine processes when there; ``strict``: must be."""
+    key = ref_key(kind, c, seed, stream)
+    if key in _REF:
+        return _REF[key][0]
+    if strict:
+        raise RuntimeError(f"no pristine reference for {key}")
+    if key in _FRESH:
+        return _FRESH[key]
+    outs, outcomes = _compute_fresh(kind, c, seed, stream, repeats)
     _FRESH[key] = outs
     _FRESH_OUTCOME[key] = outcomes
     return outs
 
 
 def fresh_outcomes(kind: dict, c: dict, seed: str, stream: list | None = None) -> list[str]:
+    key = ref_key(kind, c, seed, stream)
+    if key in _REF:
+        return _REF[key][1]
     fresh_results(kind, c, seed, stream)
-    return _FRESH_OUTCOME[(_ckey(kind, c), seed, str(stream))]
+    return _FRESH_OUTCOME[key]
 
 
 def within_spread(out: torch.Tensor, fresh: list, dtype: str) -> bool:
@@ -251,22 +418,114 @@ def within_spread(out: torch.Tensor, fresh: list, dtype: str) -> bool:
     return bool(((o >= lo - tol) & (o <= hi + tol)).all())
 
 
-def same_as_fresh(kind: dict, c: dict, seed: str, stream: list | None, obs: dict, out) -> tuple[bool, list]:
+def same_as_fresh(kind: dict, c: dict, seed: str, stream: list | None, obs: dict, out,
+                  strict: bool = False) -> tuple[bool, list]:
     """Does this call do what history-free repeats (fresh instance, same seed, same stream position)
     do: the same outcome class; for a vector the same dtype and a value within their spread."""
-    fresh = fresh_results(kind, c, seed, stream)
+    fresh = fresh_results(kind, c, seed, stream, strict=strict)
     outcomes = fresh_outcomes(kind, c, seed, stream)
     if out is None:
         return all(o == obs["outcome"] for o in outcomes), outcomes
     if any(f is None or f.dtype != out.dtype for f in fresh):
         return False, [o if f is None else f"vector[{DTN.get(f.dtype, f.dtype)}]" for o, f in zip(outcomes, fresh)]
-    return within_spread(out, fresh, c["dtype"]), [f.tolist() for f in fresh][:1]
+    return within_spread(out, fresh, c["dtype"]), [f.tolist()[:8] for f in fresh][:1]
+
+
+# ---------------------------------------------------------------------------------- presentations
+class Presenter:
+    """How a history hands its matrices to the instance (pres of AggContract.tla):
+      new : a newly built tensor per call;
+      buf : THE SAME tensor object for every call of the history, rewritten in place in between
+            (via: copy_ | mul_ by a power of two | neg_row: X[0].neg_() | zero_ | same: untouched);
+      tmp : a short-lived temporary S[idx] (advanced indexing of a tensor that holds the class's
+            content) which is released before the next call builds its own;
+      ext : a new tensor object per call over the same external memory (torch.from_numpy of one array
+            that numpy refills): same address, version counter 0, other content.
+    ``call(A, c, pres, via)`` returns (obs, out); obs['addr'] tells whether the data pointer of the
+    tensor equals that of the previous tmp / ext tensor of the history."""
+
+    def __init__(self):
+        self.buf: torch.Tensor | None = None
+        self.buf_e = 0
+        self.arr: np.ndarray | None = None
+        self.src: dict = {}
+        self.idx: dict = {}
+        self.last_ptr = None
+
+    def call(self, A, c: dict, pres: str, via: str) -> tuple[dict, torch.Tensor | None]:
+        if pres == "new" or len(c["dims"]) != 2:
+            obs, out = observe(A, make_tensor(c))
+            obs["addr"] = "na"
+            return obs, out
+        if pres == "buf":
+            T = make_tensor(c)
+            if self.buf is None or via == "alloc":
+                self.buf = T.clone()
+            else:
+                B = self.buf
+                if via == "zero_":
+                    B.zero_()
+                elif via == "mul_":
+                    B.mul_(2.0 ** (c["e"] - self.buf_e))               # exact: power of two within the range
+                elif via == "neg_row":
+                    B[0].neg_()
+                elif via == "copy_":
+                    B.copy_(T)
+                elif via != "same":
+                    raise RuntimeError(f"unknown in-place rewrite {via}")
+                if tuple(B.shape) != tuple(T.shape) or B.dtype != T.dtype or not (
+                        torch.equal(_bits(B), _bits(T)) or torch.equal(B, T)):          # -0.0 == 0.0
+                    raise RuntimeError(f"rewriting the buffer via {via} did not produce the content of {class_text(c)}")
+            self.buf_e = c["e"]
+            obs, out = observe(A, self.buf)
+            obs["addr"] = "na"
+            return obs, out
+        if pres == "tmp":
+            k = _ckey({"name": "-", "agg": "-", "a": 0, "b": 0, "pdt": "-"}, c)
+            if k not in self.src:
+                self.src[k] = make_tensor(c)
+                self.idx.setdefault(c["dims"][0], torch.arange(c["dims"][0]))
+            S = self.src[k]
+            X = S[self.idx[c["dims"][0]]]                  # a temporary, as J[perm] would be
+            ptr = X.data_ptr()
+            if ptr == S.data_ptr() or X._version != 0:
+                raise RuntimeError("the temporary is not a new version-0 tensor")
+            obs, out = observe(A, X, same_as=S)
+            del X
+        elif pres == "ext":
+            T = make_tensor(c)
+            if self.arr is None or self.arr.shape != tuple(T.shape) or self.arr.dtype != NPDT[c["dtype"]]:
+                self.arr = np.empty(tuple(T.shape), dtype=NPDT[c["dtype"]])
+                self.last_ptr = None
+            self.arr[...] = T.numpy()                      # numpy writes: no version counter involved
+            X = torch.from_numpy(self.arr)
+            ptr = X.data_ptr()
+            if X._version != 0 or not torch.equal(_bits(X), _bits(T)):
+                raise RuntimeError("the re-wrapped memory does not hold the class's content at version 0")
+            obs, out = observe(A, X, same_as=T)
+            del X
+        else:
+            raise RuntimeError(f"unknown presentation {pres}")
+        obs["addr"] = "first" if self.last_ptr is None else ("same" if ptr == self.last_ptr else "other")
+        self.last_ptr = ptr
+        return obs, out
+
+
+def run_other(k: dict, c: dict) -> str:
+    """Another instance (constructed for the occasion) aggregates a matrix; whatever it does."""
+    try:
+        B = make_agg(k)
+        B(make_tensor(c))
+        return "vector"
+    except Exception as ex:                                                   # noqa: BLE001
+        return type(ex).__name__
 
 
 # ---------------------------------------------------------------------------------- S -> C replay
 def class_text(c: dict) -> str:
     d = "x".join(map(str, c["dims"])) or "0-d"
-    return f"{d}/{c['var']}/{c['content']}/{c['dtype']}/2^{c['e']}"
+    w = f"*{c['w']}" if c.get("w", 1) != 1 else ""
+    return f"{d}{w}/{c['var']}/{c['content']}/{c['dtype']}/2^{c['e']}"
 
 
 def judge(kind: dict, st: dict, obs: dict) -> str | None:
@@ -289,26 +548,45 @@ def judge(kind: dict, st: dict, obs: dict) -> str | None:
     return None
 
 
+def wanted_references(scn: dict) -> list[tuple]:
+    """The (kind, class, seed) triples whose history-free result a history is compared with at property
+    level.  Single calls are compared with repeats in their own process (reproducibility)."""
+    if scn["mode"] == "single":
+        return []
+    return [(scn["kind"], st["c"], st["rng"]["seed"]) for st in scn["steps"]
+            if st["op"] == "call" and st["expect"] in ("vector", "unspecified") and st["memo"] == "property"]
+
+
 def run_scenario(scn: dict) -> dict:
     """Executes one exported history on one real instance."""
     kind = scn["kind"]
+    strict = scn["mode"] != "single"
     res = {"fails": [], "drift": [], "calls": 0, "memo_checked": 0, "memo_xdt": 0, "out": None, "weights": None,
-           "obs": []}
+           "obs": [], "flags": {}, "addr": {}}
     torch.manual_seed(seed_value("s0"))
     try:
         A = make_agg(kind)
     except Exception as ex:                                       # noqa: BLE001
         res["fails"].append({"at": 0, "clause": "constructor_raised", "detail": f"{type(ex).__name__}: {ex}"})
         return res
+    P = Presenter()
     for i, st in enumerate(scn["steps"], 1):
         if st["op"] == "seed":
             torch.manual_seed(seed_value(st["s"]))
             continue
+        if st["op"] == "other":
+            seen = run_other(st["k"], st["c"])
+            seen = seen if seen in ("vector", "ValueError") else "Err_other"
+            says = "ValueError" if st["impl"].startswith("VE_") else ("vector" if st["impl"].startswith("vector") else st["impl"])
+            if seen != says and not (st["c"]["dtype"] in ("bf16", "f16")):
+                res["drift"].append(f"other instance {st['k']['name']}: model says {st['impl']}, code did {seen}")
+            continue
         c = st["c"]
-        X = make_tensor(c)
-        obs, out = observe(A, X)
+        obs, out = P.call(A, c, st.get("pres", "new"), st.get("via", "-"))
         res["calls"] += 1
         res["obs"].append(obs)
+        if obs["addr"] != "na":
+            res["addr"][obs["addr"]] = res["addr"].get(obs["addr"], 0) + 1
         clause = judge(kind, st, obs)
         if clause:
             res["fails"].append({"at": i, "clause": clause, "class": class_text(c), "want": st["expect"],
@@ -317,10 +595,12 @@ def run_scenario(scn: dict) -> dict:
             continue
         if st["expect"] == "ValueError" and st["impl"] != "VE_" + obs["cause"] and obs["cause"] != "unknown":
             res["drift"].append(f"order of checks: model says {st['impl']}, code raised for '{obs['cause']}'")
-        if st.get("cross"):
-            seen = "vector" if obs["outcome"] == "vector" else "Err_other"
-            if st["impl"] != seen:
-                res["drift"].append(f"matrix dtype != parameter dtype: model says {st['impl']}, code did {obs['outcome']}")
+        if st.get("cross") or c["dtype"] in ("bf16", "f16"):
+            seen = "vector" if obs["outcome"] == "vector" else ("ValueError" if obs["outcome"] == "ValueError" else "Err_other")
+            says = "ValueError" if st["impl"].startswith("VE_") else st["impl"]
+            if says != seen:
+                res["drift"].append(f"matrix dtype {c['dtype']} (parameter: {kind['pdt']}): model says {st['impl']}, "
+                                    f"code did {obs['outcome']}")
         if st["expect"] == "vector" and out is None:
             continue
         if st["expect"] in ("vector", "unspecified"):
@@ -328,15 +608,20 @@ def run_scenario(scn: dict) -> dict:
             # open (exception class, or dtype and bits of the vector)
             rng = st["rng"]
             if st["memo"] == "property":
-                same, fresh = same_as_fresh(kind, c, rng["seed"], None, obs, out)
+                same, fresh = same_as_fresh(kind, c, rng["seed"], None, obs, out, strict=strict)
                 res["memo_checked"] += 1
                 if st.get("xdt") and st["expect"] == "vector":
                     res["memo_xdt"] += 1
+                for flag in ("rewritten", "oth", "othpar", "zerobefore"):
+                    if st.get(flag) and st["expect"] == "vector":
+                        res["flags"][flag] = res["flags"].get(flag, 0) + 1
+                if obs["addr"] == "same" and st["expect"] == "vector":
+                    res["flags"][st["pres"] + "_addr_same"] = res["flags"].get(st["pres"] + "_addr_same", 0) + 1
                 if not same:
                     res["fails"].append({"at": i, "clause": "depends_on_history_or_not_reproducible",
                                          "class": class_text(c), "want": "the result of a fresh instance "
-                                         f"after the same seed: {fresh}",
-                                         "got": out.tolist() if out is not None else obs["outcome"], "obs": obs})
+                                         f"(new process, new tensor) after the same seed: {fresh}",
+                                         "got": out.tolist()[:8] if out is not None else obs["outcome"], "obs": obs})
             else:
                 same, _ = same_as_fresh(kind, c, rng["seed"], rng["stream"], obs, out)
                 if not same:
@@ -345,6 +630,60 @@ def run_scenario(scn: dict) -> dict:
             if scn["mode"] == "single" and st["expect"] == "vector":
                 res["out"] = out.double().tolist()
     return res
+
+
+def _run_group(item):
+    import time
+    scns, seed, refs = item
+    global _SEED
+    _SEED = seed
+    _REF.update(refs)
+    out = []
+    for scn in scns:
+        t0 = time.perf_counter()
+        r = run_scenario(scn)
+        r["cpu_s"] = time.perf_counter() - t0
+        out.append(r)
+    return out
+
+
+def run_scenarios_isolated(scenarios: list[dict], seed: int, group: int = 96) -> list[dict]:
+    """References first (one pristine process each), then the histories, in new processes: one per
+    (kind, history shape) and at most ``group`` histories, so that only instances of one and the same
+    parameterisation ever share a process; the histories with calls of OTHER instances (what they probe
+    is state of the process) one process per (kind, other kind, class the other one sees) - the first
+    history of such a process is exactly the modelled one, the (one or two) later ones see the same
+    other instance on the same class once more before their own call."""
+    global _SEED
+    _SEED = seed
+    wanted = [w for s in scenarios for w in wanted_references(s)]
+    compute_references(wanted)
+    groups: list[list[int]] = []
+    cur_key, cur = None, []
+    for i, s in enumerate(scenarios):
+        k = (s["mode"], s["kind"]["name"])
+        if s["mode"] == "hoth":
+            o = [st for st in s["steps"] if st["op"] == "other"]
+            k += tuple((st["k"]["name"], class_text(st["c"])) for st in o) if o else ("-",)
+        if k != cur_key or len(cur) >= group:
+            if cur:
+                groups.append(cur)
+            cur_key, cur = k, []
+        cur.append(i)
+    if cur:
+        groups.append(cur)
+    # expensive groups first (dynamic scheduling): CAGrad's conic programs, wide matrices
+    cost = lambda g: -len(g) * (8 if scenarios[g[0]]["kind"]["agg"] == "CAGrad" else
+                                3 if scenarios[g[0]]["kind"]["agg"] in ("AlignedMTL", "MGDA") else 1)
+    order = sorted(range(len(groups)), key=lambda gi: cost(groups[gi]))
+    def refs_of(g):
+        return {ref_key(*w): _REF[ref_key(*w)] for i in g for w in wanted_references(scenarios[i])}
+    outs = isolated_map(_run_group, [([scenarios[i] for i in groups[gi]], seed, refs_of(groups[gi])) for gi in order])
+    results: list = [None] * len(scenarios)
+    for gi, rs in zip(order, outs):
+        for i, r in zip(groups[gi], rs):
+            results[i] = r
+    return results
 
 
 def weight_factor(kind: dict, c: dict) -> tuple[float, list[float]]:
@@ -420,11 +759,14 @@ def check_catalogue_bounds() -> list[str]:
 
 
 # ---------------------------------------------------------------------------------- C -> S driver
+ALT_AGGS = ("UPGrad", "DualProj", "CAGrad", "MGDA", "AlignedMTL", "ConFIG", "GradDrop", "Constant")
+
+
 def random_kind(rng: random.Random) -> dict:
     agg = rng.choice(["Mean", "Sum", "MGDA", "PCGrad", "CAGrad", "IMTLG", "UPGrad", "DualProj", "AlignedMTL",
                       "ConFIG", "GradDrop", "Random", "Constant", "TrimmedMean", "Krum", "UPGrad", "DualProj",
                       "AlignedMTL", "ConFIG", "GradDrop", "PCGrad", "Random"])
-    a = b = 0
+    a = b = alt = 0
     pdt = "any"
     if agg == "Constant":
         a, pdt = rng.randint(1, 5), rng.choice(["f32", "f64"])
@@ -434,7 +776,13 @@ def random_kind(rng: random.Random) -> dict:
         a = rng.randint(0, 2)
     elif agg == "Krum":
         a, b = rng.randint(0, 2), rng.randint(1, 4)
-    return {"name": f"{agg}({a},{b},{pdt})", "agg": agg, "a": a, "b": b, "pdt": pdt}
+    if agg in ALT_AGGS and (a > 0 or agg in ("UPGrad", "DualProj", "CAGrad", "MGDA")) and rng.random() < 0.3:
+        alt = 1                                     # every constructor parameter at its alternate value
+    return {"name": f"{agg}({a},{b},{pdt},{alt})", "agg": agg, "a": a, "b": b, "pdt": pdt, "alt": alt}
+
+
+def _erange(dtype: str) -> tuple[int, int]:
+    return (-39, 48) if dtype == "f32" else (-332, 331)
 
 
 def random_class(rng: random.Random, kind: dict, prev: list[dict]) -> dict:
@@ -445,17 +793,17 @@ def random_class(rng: random.Random, kind: dict, prev: list[dict]) -> dict:
         dtype = kind["pdt"] if rng.random() < 0.6 else ("f32" if kind["pdt"] == "f64" else "f64")
     if prev and rng.random() < 0.25:                 # repeat an earlier input (memo), possibly re-typed
         c = dict(rng.choice(prev))
-        if rng.random() < 0.3:
+        if rng.random() < 0.3 and c["dtype"] in ("f32", "f64"):
             c["dtype"] = dtype
-            lo, hi = (-39, 48) if dtype == "f32" else (-332, 331)
+            lo, hi = _erange(dtype)
             c["e"] = min(max(c["e"], lo), hi)
         return c
-    lo, hi = (-39, 48) if dtype == "f32" else (-332, 331)
+    lo, hi = _erange(dtype)
     e = rng.choice([0, 0, rng.randint(lo, hi), rng.randint(-14, 14), lo, hi])
     r = rng.random()
     if r < 0.12:
         dims = rng.choice([[], [rng.randint(1, 5)], [2, 2, 2], [1, 3, 2]])
-        return {"dims": dims, "var": "na", "content": "finite", "pos": "first", "dtype": dtype, "e": 0}
+        return {"dims": dims, "var": "na", "content": "finite", "pos": "first", "dtype": dtype, "e": 0, "w": 1}
     m = kind["a"] if kind["a"] > 0 and kind["agg"] not in ("TrimmedMean", "Krum") and rng.random() < 0.7 \
         else rng.randint(1, 6)
     n = rng.randint(1, 6)
@@ -467,39 +815,166 @@ def random_class(rng: random.Random, kind: dict, prev: list[dict]) -> dict:
         J[rng.randrange(m)] = [0] * n
     if 0.5 < v < 0.55:
         J = [[0] * n for _ in range(m)]
+    if r > 0.94:                                     # low precision: outcome open, independence demanded
+        return {"dims": [m, n], "var": "rand", "content": "finite", "pos": "first",
+                "dtype": rng.choice(["bf16", "f16"]), "e": 0, "w": 1, "J": J}
     content = "finite" if rng.random() < 0.8 else rng.choice(["nan", "pinf", "ninf"])
     return {"dims": [m, n], "var": "rand", "content": content, "pos": rng.choice(["first", "last"]),
-            "dtype": dtype, "e": e, "J": J}
+            "dtype": dtype, "e": e, "w": 1, "J": J}
 
 
-def random_episode(ep: int, seed: int) -> dict:
-    """One random history on one real instance; every call is observed and compared with a fresh
-    instance called right after the last seed (``eqfresh``) - whether that comparison is demanded is
-    decided by the trace specification, which tracks the RNG stream."""
+def _rewrite(rng: random.Random, b: dict) -> tuple[dict, str]:
+    """Another content for the tensor object that holds class b now, and the in-place operation that
+    produces it (ViaOf of AggContract.tla, on random matrices)."""
+    m, n = b["dims"]
+    c = dict(b)
+    r = rng.random()
+    lo, hi = _erange(b["dtype"])
+    if r < 0.12:
+        return c, "same"
+    if b["content"] != "finite":
+        r = 1.0
+    if r < 0.3 and lo <= b["e"] + 7 <= hi:
+        c["e"] = b["e"] + rng.choice([d for d in (-7, 3, 7, 20) if lo <= b["e"] + d <= hi])
+        return c, "mul_"
+    if r < 0.5:
+        c["J"] = [[-x for x in b["J"][0]]] + [list(row) for row in b["J"][1:]]
+        return (c, "neg_row") if c["J"] != b["J"] else (c, "same")
+    if r < 0.62:
+        c["J"] = [[0] * n for _ in range(m)]
+        return c, "zero_"
+    c["J"] = [[rng.randint(-2, 2) for _ in range(n)] for _ in range(m)]
+    if rng.random() < 0.25:
+        c["J"][rng.randrange(m)] = [0] * n
+    c["content"] = "finite" if rng.random() < 0.85 else "nan"
+    c["pos"] = "last"
+    return c, "copy_"
+
+
+def plan_episode(ep: int, seed: int) -> dict:
+    """The plan of one random history (what is presented, not what happens): seedings, calls of other
+    instances, and calls of the instance under observation with their presentation."""
     rng = random.Random(seed * 1_000_003 + ep)
     kind = random_kind(rng)
+    steps = []
+    prev: list[dict] = []
+    bufc = tmpc = extc = None
+    dummy_c = {"dims": [], "var": "na", "content": "finite", "pos": "first", "dtype": "f64", "e": 0, "w": 1}
+    style = rng.choice(["new", "new", "buf", "tmp", "ext", "mix"])
+    for _ in range(rng.randint(1, 6)):
+        r = rng.random()
+        if r < 0.25:
+            steps.append({"op": "seed", "s": rng.choice(["s0", "s1"]), "k": kind, "c": dummy_c, "pres": "-", "via": "-"})
+            continue
+        if r < 0.40:
+            k2 = random_kind(rng)
+            if rng.random() < 0.5:                  # the same class with (possibly) other parameters
+                for _t in range(20):
+                    if k2["agg"] == kind["agg"]:
+                        break
+                    k2 = random_kind(rng)
+            c2 = random_class(rng, k2, prev)
+            if prev and rng.random() < 0.5 and len(prev[-1]["dims"]) == 2:      # same row count / dtype as a call of ours
+                c2 = dict(prev[-1])
+            steps.append({"op": "other", "s": "-", "k": k2, "c": c2, "pres": "new", "via": "-"})
+            continue
+        pres = style if style != "mix" else rng.choice(["new", "buf", "tmp", "ext"])
+        via = "-"
+        if pres == "buf":
+            if bufc is None:
+                c = random_class(rng, kind, [])
+                via = "alloc"
+            else:
+                c, via = _rewrite(rng, bufc)
+            if len(c["dims"]) != 2 or c["dtype"] not in ("f32", "f64"):
+                pres, via = "new", "-"
+            else:
+                bufc = c
+        elif pres in ("tmp", "ext"):
+            last = tmpc if pres == "tmp" else extc
+            if last is None or rng.random() < 0.2:
+                c = random_class(rng, kind, [])
+                if len(c["dims"]) == 2 and c["dtype"] in ("f32", "f64"):
+                    c["w"] = rng.choice([1, 13, 64, 820]) if pres == "tmp" else rng.choice([1, 1, 64])
+                    c["content"], c["e"] = "finite", (c["e"] if abs(c["e"]) < 30 else 0)
+            else:                                    # same shape, width and dtype: other content
+                c, _ = _rewrite(rng, last)
+                c["content"] = "finite"
+            if len(c["dims"]) != 2 or c["dtype"] not in ("f32", "f64"):
+                pres = "new"
+            elif pres == "tmp":
+                tmpc = c
+            else:
+                extc, via = c, ("alloc" if last is None else "numpy")
+        else:
+            c = random_class(rng, kind, prev)
+        prev.append(c)
+        steps.append({"op": "call", "s": "-", "k": kind, "c": c, "pres": pres, "via": via})
+    return {"ep": ep, "kind": kind, "steps": steps}
+
+
+def episode_references(plan: dict) -> list[tuple]:
+    out, last_seed = [], "s0"
+    for st in plan["steps"]:
+        if st["op"] == "seed":
+            last_seed = st["s"]
+        elif st["op"] == "call":
+            out.append((plan["kind"], st["c"], last_seed))
+    return out
+
+
+def run_episode(plan: dict) -> dict:
+    """One random history on one real instance; every call is observed and compared with the history-free
+    repeats (pristine processes) right after the last seed (``eqfresh``) - whether that comparison is
+    demanded is decided by the trace specification, which tracks the RNG stream."""
+    kind = plan["kind"]
     steps = []
     last_seed = "s0"
     torch.manual_seed(seed_value("s0"))
     A = make_agg(kind)
-    prev: list[dict] = []
-    dummy_c = {"dims": [], "var": "na", "content": "finite", "pos": "first", "dtype": "f64", "e": 0}
-    dummy_o = {"outcome": "-", "cause": "-", "n": -1, "dtype": "-", "finite": False, "mutated": False, "eqfresh": "na"}
-    for _ in range(rng.randint(1, 6)):
-        if rng.random() < 0.3:
-            last_seed = rng.choice(["s0", "s1"])
-            torch.manual_seed(seed_value(last_seed))
-            steps.append({"op": "seed", "s": last_seed, "c": dummy_c, "obs": dummy_o})
-            continue
-        c = random_class(rng, kind, prev)
-        prev.append(c)
-        state = torch.get_rng_state()
-        obs, out = observe(A, make_tensor(c))
-        after = torch.get_rng_state()
-        if obs["outcome"] != "ValueError":
-            same, _ = same_as_fresh(kind, c, last_seed, None, obs, out)
-            obs["eqfresh"] = "yes" if same else "no"
-            torch.set_rng_state(after)
+    P = Presenter()
+    dummy_o = {"outcome": "-", "cause": "-", "n": -1, "dtype": "-", "finite": False, "mutated": False,
+               "eqfresh": "na", "addr": "na", "zero_row": False}
+    for st in plan["steps"]:
+        c = st["c"]
         cj = {k: v for k, v in c.items() if k != "J"}
-        steps.append({"op": "call", "s": "-", "c": cj, "obs": obs, "J": c.get("J"), "e": c["e"]})
-    return {"ep": ep, "kind": kind, "steps": steps}
+        rec = {"op": st["op"], "s": st["s"], "k": st["k"], "c": cj, "pres": st["pres"], "via": st["via"],
+               "obs": dummy_o, "J": c.get("J"), "e": c["e"]}
+        if st["op"] == "seed":
+            last_seed = st["s"]
+            torch.manual_seed(seed_value(last_seed))
+        elif st["op"] == "other":
+            rec["obs"] = dict(dummy_o, outcome=run_other(st["k"], c))
+        else:
+            obs, out = P.call(A, c, st["pres"], st["via"])
+            after = torch.get_rng_state()
+            if obs["outcome"] != "ValueError":
+                same, _ = same_as_fresh(kind, c, last_seed, None, obs, out, strict=True)
+                obs["eqfresh"] = "yes" if same else "no"
+                torch.set_rng_state(after)
+            rec["obs"] = obs
+        steps.append(rec)
+    return {"ep": plan["ep"], "kind": kind, "steps": steps}
+
+
+def _episode_task(item):
+    plan, seed = item
+    global _SEED
+    _SEED = seed
+    # the history-free repeats of every planned call FIRST: at that point nothing but fresh instances of
+    # this very kind (same parameters) on newly built tensors has run in the process
+    for kind, c, last_seed in episode_references(plan):
+        k = ref_key(kind, c, last_seed)
+        if k not in _REF:
+            _REF[k] = _compute_fresh(kind, c, last_seed, None)
+    return run_episode(plan)
+
+
+def run_episodes_isolated(eps: list[int], seed: int) -> list[dict]:
+    """Every random history in a new process of its own (forked from one in which no aggregator ran),
+    which first obtains the history-free repeats of the planned calls, then runs the history - with its
+    other instances, rewritten buffers, temporaries."""
+    global _SEED
+    _SEED = seed
+    plans = [plan_episode(ep, seed) for ep in eps]
+    return isolated_map(_episode_task, [(p, seed) for p in plans])
